@@ -12,7 +12,7 @@ src = f"/tmp/seed-{sid}/seed"
 dst = f"/verif/seeded/{sid}"
 os.makedirs(dst, exist_ok=True)
 for f in ("patch.diff", "demo.py", "meta.json"):
-    if os.path.exists(f"{src}/{f}"):
+    if os.path.exists(f"{src}/{f}") and not (f == "meta.json" and os.path.exists(f"{dst}/{f}")):
         shutil.copy(f"{src}/{f}", f"{dst}/{f}")
 meta = json.load(open(f"{dst}/meta.json")) if os.path.exists(f"{dst}/meta.json") else {}
 wt = f"/tmp/sv-{sid}"
